@@ -11,6 +11,9 @@ P = {
    text='Shows the library creates no memory location reachable from two threads: no mutable static storage, no foreign mutable statics, no non-reentrant libc calls, all c3d working state allocated per object, c3d not copyable, no stored frame aliasing. Full claim under stated runtime assumptions.',
    note='Assumes allocator, iostream and file system are thread-safe per their specs; ::toupper reads a locale nobody writes. ' + TB, ref='4/C18'),
 }
+P['C08'] = dict(cat='other', tech='ownership / alias analysis of handle-holding classes over all call sites (custom libTooling checker)',
+   text='Ownership analysis: payload classes are value-only; every handle write is a fresh allocation; no copy of an aliasing class (Frame, and classes holding it by value) lands in object-owned storage; no public method hands out a handle. Full claim at the structural level: the property is an ownership property.',
+   note='Users of the documented const-bypass accessors are outside the property; C++11 vector::resize(n) value-initialises each element. ' + TB, ref='4/C08')
 NA = {
  'C19': 'compares compiled artefacts across optimisation levels / link kinds; not decidable from source without running the builds (DESIGN 4/C19)',
 }
